@@ -229,6 +229,8 @@ def r4_isolation(ctx):
 
 
 def run(ctx):
+    from . import effects
+    effects.check_property(ctx, "C16")    # R16.E: no operation on shared protocol state outside the reviewed table
     from . import C07, C10
     r1_negotiation(ctx)
     r2_connect_only(ctx)
